@@ -28,7 +28,7 @@
 (***************************************************************************)
 EXTENDS TranscriptCore, Json, IOUtils, Functions, SequencesExt
 
-CONSTANTS Disabled, UseEnvConfigs
+CONSTANTS Mutants, ConfigSet     \* Mutants: set of sets of disabled classes; ConfigSet: "lattice" | "env" | "one"
 
 H == 4
 D == 2
@@ -39,7 +39,10 @@ Lattice ==
     padcaps |-> pd, padfinal |-> 2 * pd] :
      nc \in {1, 2}, np \in {0, 3}, cp \in {1, 2}, ly \in 0..2, st \in {"fixed", "cab", "minsize"},
      lk \in BOOLEAN, pd \in {0, 1}}
-Configs == IF UseEnvConfigs THEN {c : c \in Range(ndJsonDeserialize(IOEnv.CFGS))} ELSE Lattice
+OneConfig == [nc |-> 2, npi |-> 3, capn |-> 2, layers |-> 2, strat |-> "fixed", narity |-> 2, q |-> 2, nfinal |-> 2,
+              ncols |-> 2, naux |-> 2, nquot |-> 4, lookups |-> TRUE, nsimz |-> 1, padcaps |-> 1, padfinal |-> 2]
+Configs == IF ConfigSet = "env" THEN {c : c \in Range(ndJsonDeserialize(IOEnv.CFGS))}
+           ELSE IF ConfigSet = "one" THEN {OneConfig} ELSE Lattice
 
 StratLen(cfg) == IF cfg.strat = "fixed" THEN 1 + cfg.narity ELSE IF cfg.strat = "cab" THEN 3 ELSE 2
 CapLen(cfg) == cfg.capn * H
@@ -85,7 +88,6 @@ FullSchedule(cfg) ==
         Obs("pow_witness", 1),
         Sq("fri_pow_response", 1),
         Sq("fri_query_indices", cfg.q) >>
-Schedule(cfg) == Compress(SelectSeq(FullSchedule(cfg), LAMBDA s : ~(s.k = "O" /\ s.class \in Disabled)))
 
 StatementClasses ==
   {"public_input", "cfg.security_bits", "cfg.num_challenges", "fri.rate_bits", "fri.cap_height",
@@ -115,34 +117,51 @@ Count(cfg, class) == CountF(FullSchedule(cfg), cfg, class)
 RoundOf(P, ch) == CHOOSE r \in 1..Len(P) : ch \in P[r].chs
 Precede(P, ch) == UNION {P[r].msgs : r \in 1..RoundOf(P, ch)}
 PrecedeAtomsF(fs, cfg, P, ch) == UNION {AtomsOf(c, CountF(fs, cfg, c)) : c \in Precede(P, ch)}
+\* the same, cumulatively per round (one pass): CumAtoms(..)[r] = atoms of all components of rounds 1..r
+RECURSIVE CumAtoms(_, _, _, _, _)
+CumAtoms(fs, cfg, P, r, acc) ==
+  IF r > Len(P) THEN <<>>
+  ELSE LET a == CHOOSE x \in {acc \cup UNION {AtomsOf(m, CountF(fs, cfg, m)) : m \in P[r].msgs}} : TRUE
+       IN <<a>> \o CumAtoms(fs, cfg, P, r + 1, a)
 AllChallenges(P) == UNION {P[r].chs : r \in 1..Len(P)}
 AllComponents(P) == UNION {P[r].msgs : r \in 1..Len(P)}
 DependsOn(P, ch, comp) == comp \in Precede(P, ch)
 
 \* ---- the run ----------------------------------------------------------------------
-\* prog / pre are functions of cfg, computed once per behaviour (TLC re-evaluates definitions)
-VARIABLES cfg, prog, pre, pc, el, tc, log, seen, ok
-vars == <<cfg, prog, pre, pc, el, tc, log, seen, ok>>
+\* Everything that is a function of (configuration, mutant) is tabulated ONCE (a constant-level
+\* definition is evaluated once by TLC; the states only carry the index k into the table).
+Pairs == SetToSeq(Configs \X Mutants)
+\* (bound variables of a set constructor are bound to VALUES: each of fs, P0, cum is computed once)
+Entry(c, d) ==
+  CHOOSE e \in UNION {
+      {[cfg |-> c, dis |-> d, fs |-> fs, P |-> P0,
+        \* a spec mutant drops the observe steps of the classes in d
+        prog |-> Compress(SelectSeq(fs, LAMBDA s : ~(s.k = "O" /\ s.class \in d))),
+        pre |-> [ch \in AllChallenges(P0) |-> cum[RoundOf(P0, ch)]]] : cum \in {CumAtoms(fs, c, P0, 1, {})}}
+      : fs \in {FullSchedule(c)}, P0 \in {Protocol(c)}} : TRUE
+RECURSIVE TableFrom(_)
+TableFrom(i) == IF i > Len(Pairs) THEN <<>> ELSE <<TLCEval(Entry(Pairs[i][1], Pairs[i][2]))>> \o TableFrom(i + 1)
+Table == TableFrom(1)
+
+VARIABLES k, pc, el, tc, log, seen, ok
+vars == <<k, pc, el, tc, log, seen, ok>>
 \* log: one record per squeezed element [ch, dc] (dc = classes it depends on); seen: atoms observed so
 \* far; ok: the obligations FS1 / FS2 / FS0, evaluated on each squeezed element when it is drawn
 
-P == Protocol(cfg)
-Done == pc > 0 /\ pc > Len(prog)
+cfg == Table[k].cfg
+dis == Table[k].dis
+prog == Table[k].prog
+pre == Table[k].pre
+P == Table[k].P
+Done == k > 0 /\ pc > Len(prog)
 
 \* the configuration is chosen by the first step (initial states are processed by one worker only)
-Init == /\ cfg = [none |-> TRUE] /\ prog = <<>> /\ pre = <<>>
-        /\ pc = 0 /\ el = 1 /\ tc = TInit /\ log = <<>> /\ seen = {}
+Init == /\ k = 0 /\ pc = 1 /\ el = 1 /\ tc = UInit /\ log = <<>> /\ seen = {}
         /\ ok = [fs1 |-> TRUE, fs2 |-> TRUE, fs0 |-> TRUE]
-Choose ==
-  /\ pc = 0
-  /\ \E c \in Configs : \E fs \in {FullSchedule(c)} : \E P0 \in {Protocol(c)} :
-        /\ cfg' = c
-        /\ prog' = Compress(SelectSeq(fs, LAMBDA s : ~(s.k = "O" /\ s.class \in Disabled)))
-        /\ pre' = [ch \in AllChallenges(P0) |-> PrecedeAtomsF(fs, c, P0, ch)]
-        /\ pc' = 1
-        /\ UNCHANGED <<el, tc, log, seen, ok>>
+Choose == /\ k = 0 /\ k' \in 1..Len(Table)
+          /\ UNCHANGED <<pc, el, tc, log, seen, ok>>
 Run ==
-  /\ pc > 0 /\ ~Done
+  /\ k > 0 /\ ~Done
   /\ LET s == prog[pc]
          r == CHOOSE x \in {StepElem(s, el, tc)} : TRUE
      IN /\ tc' = r[1]
@@ -154,31 +173,35 @@ Run ==
                  ELSE ok
         /\ seen' = IF s.k = "O" THEN seen \cup ElemTaint(s, el, tc) ELSE seen
         /\ IF el < s.n THEN el' = el + 1 /\ pc' = pc ELSE el' = 1 /\ pc' = pc + 1
-        /\ UNCHANGED <<cfg, prog, pre>>
+        /\ k' = k
 Next == Choose \/ Run
 
 \* ---- obligations ------------------------------------------------------------------
 FS1 == ok.fs1
 FS2 == ok.fs2
 FS0 == ok.fs0
+\* canary form: every spec mutant (a dropped absorption) is caught by FS1 at the end of its run
+MutantCaught == (Done /\ dis # {}) => ~ok.fs1
 \* every challenge of the protocol is drawn, with the right number of elements, in protocol order
 ChallengeCount(ch) == Cardinality({j \in 1..Len(log) : log[j].ch = ch})
-ExpectedCount(ch) == FoldSeq(LAMBDA s, acc : acc + (IF s.k = "S" /\ s.class = ch THEN s.n ELSE 0), 0, FullSchedule(cfg))
+ExpectedCount(ch) == FoldSeq(LAMBDA s, acc : acc + (IF s.k = "S" /\ s.class = ch THEN s.n ELSE 0), 0, Table[k].fs)
 Complete == Done =>
   /\ \A ch \in AllChallenges(P) :
         ChallengeCount(ch) = ExpectedCount(ch)
   /\ \A j \in 1..Len(log) : log[j].ch \in AllChallenges(P)
   /\ \A i \in 1..Len(log), j \in 1..Len(log) : i < j => RoundOf(P, log[i].ch) <= RoundOf(P, log[j].ch)
-  /\ \A c \in AllComponents(P) : Count(cfg, c) > 0 => AtomsOf(c, Count(cfg, c)) \subseteq seen
+  /\ \A c \in AllComponents(P) : CountF(Table[k].fs, cfg, c) > 0 => AtomsOf(c, CountF(Table[k].fs, cfg, c)) \subseteq seen
 
 \* ---- the expected dependency matrix -----------------------------------------------
 ObservedDeps(ch) == UNION {log[j].dc : j \in {i \in 1..Len(log) : log[i].ch = ch}}
 LiveChallenges == {ch \in AllChallenges(P) : ChallengeCount(ch) > 0}
-LiveComponents == {c \in AllComponents(P) : Count(cfg, c) > 0}
+LiveComponents == {c \in AllComponents(P) : CountF(Table[k].fs, cfg, c) > 0}
 Matrix == [system |-> "stark", cfg |-> cfg,
            challenges |-> SetToSeq(LiveChallenges),
            components |-> SetToSeq(LiveComponents),
            depends |-> [ch \in LiveChallenges |-> SetToSeq({c \in LiveComponents : DependsOn(P, ch, c)})],
-           schedule_depends |-> [ch \in LiveChallenges |-> SetToSeq(ObservedDeps(ch))]]
+           schedule_depends |-> [ch \in LiveChallenges |-> SetToSeq(ObservedDeps(ch))],
+           program |-> [i \in 1..Len(Table[k].fs) |->
+                          [k |-> Table[k].fs[i].k, class |-> Table[k].fs[i].class, n |-> Table[k].fs[i].n]]]
 EmitMatrix == Done => PrintT("MATRIX " \o ToJson(Matrix))
 =============================================================================
